@@ -468,12 +468,10 @@ def check(model, rep, tier):
       c = cs[0]
       stop = set()
       for a in c.args[1:]:
-        stop |= kinds_of(a)
-      me = [k for k in c.keywords if k.arg == 'may_exit_via_except']
+        stop |= kinds_of(tpl.expand(h, a, c))       # through a local that names it
       facts = {'stops_at': sorted(stop)}
-      ok = stop == stops and core.norm(c.args[0]) == h.params()[0] and (
-          (via_except and me and isinstance(me[0].value, ast.Constant) and
-           me[0].value.value is True) or (not via_except and not me))
+      # (whether a raise also reaches the handlers is decided by exit-node-wiring)
+      ok = stop == stops and core.norm(c.args[0]) == h.params()[0]
     rep.check(ok, 'CFG-JUMP', '%s:%s' % (CFG, hname),
               '%s must go through %s with the enclosing %s as the section it '
               'leaves' % (hname[6:], api, '/'.join(sorted(stops))), facts,
@@ -496,16 +494,55 @@ def check(model, rep, tier):
             'a lambda body is the exit of its own graph (visit_Lambda, private '
             'helpers expanded)', line=vl.node.lineno)
   pes = cls.methods.get('_process_exit_statement')
-  pp = pes.params()
-  n1, b1 = pat.first(pes.node, '_T_, _G_ = self._get_enclosing_finally_scopes(%s)' % pp[1])
-  ok = b1 is not None and pat.has(
-      pes.node, '_N_ = self.builder.add_exit_node(%s, _T_, _G_)' % pp[0], b1)
-  n2, b2 = pat.first(pes.node, '_E_ = self._get_enclosing_except_scopes(%s)' % pp[1])
-  ok = ok and b2 is not None and pat.has(
-      pes.node, 'self.builder.connect_raise_node(_N_, _E_)', b2)
-  rep.check(ok, 'CFG-JUMP', '%s:exit-node-wiring' % pes.site,
+  if pes is None:
+    raise core.AnalysisError('AstToCfg._process_exit_statement not found')
+  # the wiring of each exit handler, with _process_exit_statement expanded into
+  # it (whether the raise-specific part sits in the helper behind a flag or in
+  # visit_Raise itself is immaterial)
+  wiring_bad = []
+  for hname, raises in (('visit_Return', False), ('visit_Break', False),
+                        ('visit_Raise', True)):
+    h = cls.methods.get(hname)
+    if h is None:
+      wiring_bad.append(hname + ': missing')
+      continue
+    hv = core.FuncInfo(h.module, h.view(only=('_process_exit_statement',)), cls=h.cls)
+    hp = h.params()[0]
+    fins = [a_ for a_ in ast.walk(hv.node) if isinstance(a_, ast.Assign) and isinstance(
+        a_.value, ast.Call) and core.norm(a_.value.func) ==
+            'self._get_enclosing_finally_scopes' and isinstance(a_.targets[0], ast.Tuple)
+            and len(a_.targets[0].elts) == 2]
+    adds = [a_ for a_ in ast.walk(hv.node) if isinstance(a_, ast.Call) and core.norm(
+        a_.func) == 'self.builder.add_exit_node']
+    okh = len(fins) == 1 and len(adds) == 1 and len(adds[0].args) == 3
+    if okh:
+      t_, g_ = [core.norm(x) for x in fins[0].targets[0].elts]
+      okh = tpl.xnorm(hv, adds[0].args[0], adds[0]) == hp and \
+          core.norm(adds[0].args[1]) == t_ and core.norm(adds[0].args[2]) == g_
+    exc = [a_ for a_ in ast.walk(hv.node) if isinstance(a_, ast.Call) and core.norm(
+        a_.func) == 'self._get_enclosing_except_scopes']
+    con = [a_ for a_ in ast.walk(hv.node) if isinstance(a_, ast.Call) and core.norm(
+        a_.func) == 'self.builder.connect_raise_node']
+    if okh and raises:
+      okh = len(exc) == 1 and len(con) == 1 and len(con[0].args) == 2
+      if okh:
+        # the node connected is the one add_exit_node returned; the guards are
+        # the enclosing handlers searched with the same stop kinds
+        node_asg = [a_ for a_ in ast.walk(hv.node) if isinstance(a_, ast.Assign)
+                    and a_.value is adds[0]]
+        okh = bool(node_asg) and core.norm(con[0].args[0]) == core.norm(
+            node_asg[0].targets[0]) and tpl.xnorm(hv, con[0].args[1], con[0]) == \
+            tpl.xnorm(hv, exc[0], exc[0]) and kinds_of(
+                tpl.expand(hv, exc[0].args[0], exc[0])) == kinds_of(
+                    tpl.expand(hv, fins[0].value.args[0], fins[0]))
+    elif okh:
+      okh = not con
+    if not okh:
+      wiring_bad.append(hname)
+  rep.check(not wiring_bad, 'CFG-JUMP', '%s:exit-node-wiring' % pes.site,
             'exit statements must be added with the enclosing finally guards; '
-            'raises additionally with the enclosing handlers', line=pes.node.lineno)
+            'raises additionally with the enclosing handlers',
+            {'handlers_not_wired': wiring_bad}, line=pes.node.lineno)
   def scan(f, depth=0):
     """Summary of a function that scans a sequence once: source text, guards of
     the early exits, guards of the collecting appends -- all phrased on one
